@@ -7,6 +7,7 @@ daemon must parse it back to the same payload list.  Tamper half: copies of auth
 truncated, extended, re-labelled with another IKE_SA's SPIs or reflected are delivered in isolation and the real parser must
 never hand out a protected message for them."""
 import random
+import struct
 
 from sim import workload, seams, refike as R
 from sim.observe import WireLog, sha, parse_header, EXCH
@@ -31,7 +32,7 @@ ASSUMPTIONS = ['"parsing fails" is read as: Message.parse raises a protocol erro
                'per exchange type in thorough']
 EXPECT_REACH = ['protected_verified', 'roundtrip_compared', 'over_padded_judged', 'tamper.flip', 'tamper.trunc', 'tamper.extend', 'tamper.cross_sa', 'tamper.reflect',
                 'tamper.flags', 'mod16_all_residues', 'integ.2', 'integ.12', 'integ.14', 'encr.128', 'encr.256']
-TAMPER = ('flip', 'flip', 'flip', 'trunc', 'extend', 'cross_sa', 'reflect', 'flags', 'hdr', 'hdr')
+TAMPER = ('flip', 'flip', 'flip', 'trunc', 'extend', 'cross_sa', 'reflect', 'flags', 'hdr', 'hdr', 'badpad', 'badpad')
 
 
 class ParseWatch:
@@ -67,6 +68,33 @@ class Tamperer(Forger):
     def __init__(self, world, wire, ctx, watch, tap):
         super().__init__(world, wire, ctx)
         self.watch, self.tap = watch, tap
+
+    def build(self, op, r, node, sa):
+        if op['kind'] != 'badpad':
+            return super().build(op, r, node, sa)
+        # an authentic message (right keys, valid checksum) whose Pad Length octet is wrong: it claims at least as many padding octets as
+        # the whole plaintext has (it counts itself, or a block more than there is): "padded ... with a correct Pad Length octet"
+        spi_i, spi_r = (sa.my_spi, sa.peer_spi) if sa.is_initiator else (sa.peer_spi, sa.my_spi)
+        s = self.tap.sessions.get((bytes(spi_i), bytes(spi_r)))
+        if s is None or s.keys is None or s.suite is None:
+            return None
+        peer_I = not sa.is_initiator
+        sk_a, sk_e = (s.keys['ai'], s.keys['ei']) if peer_I else (s.keys['ar'], s.keys['er'])
+        inner, first = r.choice([(b'', 0), (b'', 0), (R.enc_chain([{'type': R.P_NOTIFY, 'proto': 0, 'ntype': 16384 + 20, 'spi': b'', 'data': b'\1\2\3'}]), R.P_NOTIFY)])
+        pad = (-(len(inner) + 1)) % 16 + 16 * r.choice([0, 0, 1])
+        n = len(inner) + pad + 1
+        wrong = r.choice([n, n, n + 1, n + 15, 255])
+        if wrong > 255 or wrong < n:
+            wrong = n if n <= 255 else 255
+        pt = inner + b'\0' * pad + bytes([wrong])
+        iv = bytes(r.getrandbits(8) for _ in range(16))
+        body = iv + R.aes_cbc(sk_e, iv, pt) + b'\0' * s.suite.icv
+        is_res = r.random() < 0.3
+        mid = (sa.my_msg_id if is_res else sa.peer_msg_id) + r.choice([0, 0, 5])
+        flags = (8 if peer_I else 0) | (32 if is_res else 0)
+        msg = bytearray(R.enc_header(bytes(spi_i), bytes(spi_r), R.P_SK, 37, flags, mid, 28 + 4 + len(body)) + struct.pack('>BBH', first, 0, 4 + len(body)) + body)
+        msg[-s.suite.icv:] = R.integ(s.suite.integ, sk_a, bytes(msg[:-s.suite.icv]))
+        return bytes(msg), f'authentic INFORMATIONAL {"response" if is_res else "request"} id {mid} whose plaintext has {n} octets and Pad Length {wrong}'
 
     def __call__(self, w, op):
         node = w.nodes[op['node']]
@@ -110,6 +138,16 @@ class Tamperer(Forger):
         if got is None:
             return self._r('tamper_not_fully_parsed')       # dropped at the header (unknown SPI after the change ...)
         outcome, protected, enc_types, had_keys = got
+        if op['kind'] == 'badpad':
+            self._r('badpad_judged')
+            if outcome == 'ok':
+                w.violation(PROP, 'wrong_pad_length_accepted', {'state': sa.state.name}, f'{node.name}: {label} was opened without error '
+                            f'(payloads {[R.PNAMES.get(t, t) for t in enc_types]}; IKE_SA {sa.my_spi.hex()}, {sa.state.name})')
+                w.poisoned = True
+            elif outcome != 'InvalidSyntax':
+                w.violation(PROP, 'modified_datagram_not_a_protocol_error', {'kind': 'badpad', 'error': outcome}, f'{node.name}: {label} made Message.parse raise {outcome}')
+                w.poisoned = True
+            return
         if outcome == 'ok' and (protected or enc_types):
             w.violation(PROP, 'modified_datagram_accepted_as_protected', {'kind': op['kind'], 'state': sa.state.name},
                         f'{node.name}: {label} was parsed into a protected message with encrypted payloads '
